@@ -9,8 +9,8 @@ ASSUMPTIONS = [
     'optional trailing newline/space) plus the leniencies documented by tests/cpu_set_test.cpp (white space before an item, empty items); '
     'other strings only have to be handled memory-safely and must yield representable ids only',
 ]
-OUTSIDE = ('range operations touching more than 8 (quick) / 16 (thorough) representable ids when start and end are both symbolic '
-           '(SAT cost grows steeply with the number of symbolic-index bit writes: 16 ids ~80 s, 64 ids > 10 min, 1024 ids > 20 GB); '
+OUTSIDE = ('range operations touching more than 8 (quick) / 32 (thorough) representable ids when start and end are both symbolic '
+           '(SAT cost grows steeply with the number of symbolic-index bit writes: 16 ids ~80 s, 32 ids ~17 min, 64 ids > 10 min for one op alone, 1024 ids > 20 GB); '
            'cpu-list strings longer than 3 characters (length 4 did not finish in 1700 s / 5.4 GB) and therefore ids >= 10 inside ranges, '
            'ids above 2^20 (parseIntClamped rejects them: "0-2000000" parses to the empty set, by design of kMaxReasonableCpuId); '
            'the portable (Windows/macOS) bitset backend; '
